@@ -19,7 +19,7 @@ def session_scenario(rng, purpose="rewind", allow_spend=True):
     fam = rng.weighted([
         (30, "mixed"), (14, "if-heavy"), (8, "alt-heavy"), (8, "codesep"), (8, "sig"), (5, "opcount"), (4, "bigstack"),
         (8, "disabled"), (5, "tiny"), (6 if allow_spend else 0, "dataset"), (24 if allow_spend else 0, "spend"),
-        (3, "long-listing"), (4, "pushforms"),
+        (3, "long-listing"), (4, "pushforms"), (4, "p2sh-plain"),
     ])
     scn = {"family": fam, "opts": [], "stack": [], "spend": None, "observe": True, "tty": [1, 1], "env": {}}
     flags_off = []
@@ -38,6 +38,19 @@ def session_scenario(rng, purpose="rewind", allow_spend=True):
         scn["opts"] = list(sp["opts"])
         if rng.chance(15):
             scn["opts"].append("--quiet")
+        return scn
+    if fam == "p2sh-plain":
+        # HASH160 <h> EQUAL with the redeem script as the top stack item: the P2SH section comes from the stack
+        from . import tx as T
+        g = gen.ScriptGen(rng, max_ops=12)
+        g.build(rng.range(1, 5))
+        red = S.asm(g.toks + [1])
+        h = T.hash160(red) if rng.chance(75) else rng.bytes(20)        # a wrong hash: the switch to the P2SH script is refused
+        scn["script"] = hexs(bytes([0xa9, 0x14]) + h + bytes([0x87]))
+        scn["stack"] = [hexs(S.scriptnum(rng.range(17, 500))) for _ in range(rng.range(0, 2))] + [hexs(red)]
+        if rng.chance(10):
+            scn["opts"].append("--modify-flags=-P2SH")
+        scn["features"] = ["p2sh-plain"]
         return scn
     if rng.chance(25):
         # some flags off: changes which ops are legal, never part of an oracle
